@@ -567,7 +567,7 @@ def handle (args : List String) : String :=
   | some n, some i, some o, some e, some t =>
     let bits := (g "det").toList
     let c : Cfg := { n := n, det := fun j => bits.getD j '0' == '1', sin := i, sout := o, serr := e,
-                     errTo := g "errto" == "1", failAt := (g "fail").toNat? }
+                     errTo := g "errto" == "1", failAt := (g "fail").toNat?, ioFails := g "iofails" == "1" }
     let acts := run c t
     let ren := renameMap acts
     "ok " ++ " ".intercalate (summarize ren Held.empty acts)
